@@ -90,6 +90,7 @@ func cmdCheck(args []string) {
 	jobs := fs.Int("jobs", runtime.NumCPU(), "workers")
 	only := fs.String("only", "", "regexp restricting harness entries")
 	noReplay := fs.Bool("no-replay", false, "skip native replay (diagnostics only)")
+	outDir := fs.String("out", "", "directory for evidence and replay files (default <verif>/evidence)")
 	var id string
 	// allow `check C10 --tier quick`
 	if len(args) > 0 && !strings.HasPrefix(args[0], "-") {
@@ -289,7 +290,11 @@ func cmdCheck(args []string) {
 	exit := 0
 	var lines []string
 	var replays []replayOutcome
-	replayDir := filepath.Join(*verif, "evidence", "replay")
+	evDir := filepath.Join(*verif, "evidence")
+	if *outDir != "" {
+		evDir = *outDir
+	}
+	replayDir := filepath.Join(evDir, "replay")
 	os.MkdirAll(replayDir, 0o755)
 	// remove stale replay files of this property
 	if old, _ := filepath.Glob(filepath.Join(replayDir, id+"-*.json")); old != nil {
@@ -488,8 +493,8 @@ func cmdCheck(args []string) {
 		},
 	}
 	eb, _ := json.MarshalIndent(ev, "", " ")
-	os.MkdirAll(filepath.Join(*verif, "evidence"), 0o755)
-	if err := os.WriteFile(filepath.Join(*verif, "evidence", id+".json"), eb, 0o644); err != nil {
+	os.MkdirAll(evDir, 0o755)
+	if err := os.WriteFile(filepath.Join(evDir, id+".json"), eb, 0o644); err != nil {
 		fmt.Fprintln(os.Stderr, err)
 	}
 	if engineErr != "" && exit == 0 {
